@@ -19,6 +19,7 @@ import (
 type Fact struct {
 	Cond  ssa.Value
 	Truth bool
+	Synth bool // Cond is a detached value rebuilt from the body of a named test (no type, block or position)
 }
 
 // factsAt returns the branch conditions known to hold on entry to b.
@@ -31,7 +32,7 @@ func factsAt(b *ssa.BasicBlock) []Fact {
 		if len(cur.Preds) == 1 {
 			p := cur.Preds[0]
 			if iff, ok := p.Instrs[len(p.Instrs)-1].(*ssa.If); ok && len(p.Succs) == 2 && p.Succs[0] != p.Succs[1] {
-				fs = appendFact(fs, Fact{iff.Cond, p.Succs[0] == cur}, 0)
+				fs = appendFact(fs, Fact{Cond: iff.Cond, Truth: p.Succs[0] == cur}, 0)
 			}
 		}
 		cur = cur.Idom()
@@ -53,18 +54,168 @@ func appendFact(fs []Fact, f Fact, depth int) []Fact {
 	switch x := f.Cond.(type) {
 	case *ssa.UnOp:
 		if x.Op == token.NOT {
-			return appendFact(fs, Fact{x.X, !f.Truth}, depth+1)
+			return appendFact(fs, Fact{x.X, !f.Truth, f.Synth}, depth+1)
 		}
 	case *ssa.Phi:
 		if ops, isOr, ok := shortCircuit(x, 0); ok && isOr != f.Truth {
 			// a false `a || b || …` makes every operand false; a true
 			// `a && b && …` makes every operand true
 			for _, o := range ops {
-				fs = appendFact(fs, Fact{o, f.Truth}, depth+1)
+				fs = appendFact(fs, Fact{o, f.Truth, f.Synth}, depth+1)
 			}
+		}
+	case *ssa.Call:
+		// a named test (`notFinite(x)`, `outsideInt32(n)`, `l.hasError()`):
+		// the facts of its body, with the arguments in place of the parameters
+		for _, sf := range inlinePredicateFacts(x, f.Truth) {
+			fs = appendFact(fs, sf, depth+1)
 		}
 	}
 	return fs
+}
+
+// realFacts drops the facts rebuilt from named tests (for consumers that need
+// types and positions of every condition).
+func realFacts(fs []Fact) []Fact {
+	out := fs[:0:0]
+	for _, f := range fs {
+		if !f.Synth {
+			out = append(out, f)
+		}
+	}
+	return out
+}
+
+// --- named tests ------------------------------------------------------------------
+
+// purePredicate: fn has one bool result computed, without loops or effects,
+// from its parameters: comparisons with constants and with each other, len
+// and loads of fields of parameters, !, && and ||, and calls of math.IsNaN /
+// math.IsInf on such values.
+func purePredicate(fn *ssa.Function) bool {
+	if fn == nil || fn.Blocks == nil || len(fn.Blocks) > 10 || fn.Signature.Results().Len() != 1 {
+		return false
+	}
+	if b, ok := fn.Signature.Results().At(0).Type().Underlying().(*types.Basic); !ok || b.Kind() != types.Bool {
+		return false
+	}
+	nret := 0
+	for _, b := range fn.Blocks {
+		for _, pr := range b.Preds {
+			if b.Dominates(pr) {
+				return false // a loop
+			}
+		}
+		for _, ins := range b.Instrs {
+			switch x := ins.(type) {
+			case *ssa.If, *ssa.Jump, *ssa.Phi, *ssa.DebugRef, *ssa.BinOp, *ssa.FieldAddr, *ssa.Convert, *ssa.ChangeType:
+			case *ssa.Return:
+				nret++
+			case *ssa.UnOp:
+				if x.Op != token.NOT && x.Op != token.MUL && x.Op != token.SUB {
+					return false
+				}
+			case *ssa.Call:
+				if bi, ok := x.Call.Value.(*ssa.Builtin); ok && (bi.Name() == "len" || bi.Name() == "cap") {
+					continue
+				}
+				if q := calleeQualified(&x.Call); q == "math.IsNaN" || q == "math.IsInf" {
+					continue
+				}
+				return false
+			default:
+				return false
+			}
+		}
+	}
+	return nret == 1
+}
+
+var synthCache = map[[2]ssa.Value]ssa.Value{}
+
+// substInto rebuilds the callee value v over the arguments of call c: the
+// result is a detached SSA value (no block, no position) whose operands are
+// the caller's values. Only shapes the rules look at are rebuilt.
+func substInto(c *ssa.Call, h *ssa.Function, v ssa.Value, depth int) ssa.Value {
+	if depth > 8 {
+		return nil
+	}
+	key := [2]ssa.Value{c, v}
+	if sv, ok := synthCache[key]; ok {
+		return sv
+	}
+	var out ssa.Value
+	switch x := v.(type) {
+	case *ssa.Const:
+		out = x
+	case *ssa.Parameter:
+		for i, q := range h.Params {
+			if q == x && i < len(c.Call.Args) {
+				out = c.Call.Args[i]
+			}
+		}
+	case *ssa.BinOp:
+		l, r := substInto(c, h, x.X, depth+1), substInto(c, h, x.Y, depth+1)
+		if l != nil && r != nil {
+			out = &ssa.BinOp{Op: x.Op, X: l, Y: r}
+		}
+	case *ssa.UnOp:
+		if a := substInto(c, h, x.X, depth+1); a != nil {
+			out = &ssa.UnOp{Op: x.Op, X: a}
+		}
+	case *ssa.Convert:
+		if a := substInto(c, h, x.X, depth+1); a != nil {
+			out = a // conversions between integer widths do not matter to the facts
+		}
+	case *ssa.ChangeType:
+		out = substInto(c, h, x.X, depth+1)
+	case *ssa.FieldAddr:
+		if a := substInto(c, h, x.X, depth+1); a != nil {
+			out = &ssa.FieldAddr{X: a, Field: x.Field}
+		}
+	case *ssa.Call:
+		var args []ssa.Value
+		for _, a := range x.Call.Args {
+			sa := substInto(c, h, a, depth+1)
+			if sa == nil {
+				return nil
+			}
+			args = append(args, sa)
+		}
+		out = &ssa.Call{Call: ssa.CallCommon{Value: x.Call.Value, Args: args}}
+	}
+	if out != nil {
+		synthCache[key] = out
+	}
+	return out
+}
+
+// inlinePredicateFacts: what a call of a pure predicate being true (false)
+// says about the caller's values.
+func inlinePredicateFacts(c *ssa.Call, truth bool) []Fact {
+	h := c.Call.StaticCallee()
+	if h == nil || !inModule(h) || !purePredicate(h) {
+		return nil
+	}
+	var ret *ssa.Return
+	for _, b := range h.Blocks {
+		if r, ok := b.Instrs[len(b.Instrs)-1].(*ssa.Return); ok {
+			ret = r
+		}
+	}
+	if ret == nil || len(ret.Results) != 1 {
+		return nil
+	}
+	var out []Fact
+	for _, cf := range appendFact(nil, Fact{Cond: ret.Results[0], Truth: truth}, 2) {
+		switch cf.Cond.(type) {
+		case *ssa.BinOp, *ssa.Call:
+			if sv := substInto(c, h, cf.Cond, 0); sv != nil {
+				out = append(out, Fact{sv, cf.Truth, true})
+			}
+		}
+	}
+	return out
 }
 
 // edgeFacts: facts that hold when control flows from block p to its successor
@@ -72,7 +223,7 @@ func appendFact(fs []Fact, f Fact, depth int) []Fact {
 func edgeFacts(p *ssa.BasicBlock, idx int) []Fact {
 	fs := factsAt(p)
 	if iff, ok := p.Instrs[len(p.Instrs)-1].(*ssa.If); ok && len(p.Succs) == 2 && p.Succs[0] != p.Succs[1] {
-		fs = append(appendFact(nil, Fact{iff.Cond, idx == 0}, 0), fs...)
+		fs = append(appendFact(nil, Fact{Cond: iff.Cond, Truth: idx == 0}, 0), fs...)
 	}
 	return fs
 }
@@ -100,6 +251,15 @@ func sameValue(a, b ssa.Value) bool {
 		return true
 	}
 	switch x := a.(type) {
+	case *ssa.Const:
+		y, ok := b.(*ssa.Const)
+		if !ok {
+			return false
+		}
+		if x.Value == nil || y.Value == nil {
+			return x.Value == nil && y.Value == nil && types.Identical(x.Type(), y.Type())
+		}
+		return types.Identical(x.Type(), y.Type()) && constant.Compare(x.Value, token.EQL, y.Value)
 	case *ssa.UnOp:
 		y, ok := b.(*ssa.UnOp)
 		if ok && x.Op == token.MUL && y.Op == token.MUL {
